@@ -326,7 +326,7 @@ func init() {
 		Rule: "executions = plain main programs (not test binaries) generated into a scratch module with `replace github.com/bytemare/secp256k1 => /repo`, differing in the set of other imports " +
 			"(nothing else at all, fmt+os, crypto/sha512, crypto/md5+hash/crc32, crypto/sha256 itself, the crypto registry package only; thorough: math/big, encoding/json, crypto/tls), in calling the library from init(), " +
 			"in what they do to process-wide state (the entropy source replaced by a failing one; the obvious names already taken in expvar / flag / http.DefaultServeMux), in what they do to the crypto hash registry (a program that re-registers SHA-256 as a wrapper around the standard one), and in build configuration (-ldflags='-s -w', -gcflags=all=-d=checkptr, GOARCH=386 executed natively, -tags=purego, CGO_ENABLED=0 with netgo/osusergo; -race, -gcflags=all=-N -l, the alternate toolchain go1.26.8; thorough: -trimpath, -gcflags=all=-l). Each calls HashToGroup, EncodeToGroup and HashToScalar on 4 (msg, DST) pairs including an oversize DST, and twice makes the documented mistake of an empty DST, recovers from the panic and carries on. " +
-			"Run-time configurations: GOMAXPROCS=1 (also from init), GOMAXPROCS=2 with GOGC=1. Concurrent-first-use programs, started 40/20/5/6 times each (x5 in thorough): the first calls into the library are 16 goroutines released together, each hashing all inputs in its own rotation (default CPUs, 4 CPUs, 1 CPU, and a -race build with halt_on_error); goroutines must agree with each other, with the oracle, and with a sequential pass afterwards. A program still running after 60 s is sent SIGQUIT and judged on its goroutine dump: all goroutines blocked and none runnable = deadlock (violation); otherwise inconclusive. " +
+			"Every program also prints a digest (FNV-1a written out by hand) of the three functions over every message length 0..520 under a 49-byte and a 16-byte tag, and calls every input twice on a record buffer (message and tag as two windows of one array). Run-time configurations: GOMAXPROCS=1 (also from init), GOMAXPROCS=2 with GOGC=1. Concurrent-first-use programs, started 40/20/5/6 times each (x5 in thorough): the first calls into the library are 16 goroutines released together, each hashing all inputs in its own rotation (default CPUs, 4 CPUs, 1 CPU, and a -race build with halt_on_error); goroutines must agree with each other, with the oracle, and with a sequential pass afterwards. A program that has been completely idle for 15 s (no runnable thread, no CPU time used) is sent SIGQUIT and judged on its goroutine dump: all goroutines blocked, none runnable, the module on a blocked stack = deadlock (violation); otherwise inconclusive. " +
 			"Oracle: exit status 0, no panic text, no race report, and every printed value equal to the oracle's RFC 9380 value. The program importing nothing else is the minimum of the configuration lattice (adding imports can only add registrations), so it is the decisive one. " +
 			"evaluations = library calls observed across programs; distinct non-trivial = distinct (program, input) results checked.",
 		Assume: []string{"`go build` links exactly what the import graph requires; adding imports can only add hash registrations"},
